@@ -18,6 +18,7 @@ import shutil
 import subprocess
 import sys
 import tempfile
+import time
 
 from .. import REPO_DIR, VERIF_DIR
 from ..c12_procs import COUNTED, HarnessError, gen_conf, gen_recipe, recipe_digest
@@ -149,6 +150,17 @@ _CHILD = (
 
 def run_child(recipes, confs, order, hashseed, timeout, pyc):
     """One interpreter start; returns {recipe index: observation} or None on timeout."""
+    for attempt in range(3):
+        try:
+            return _run_child(recipes, confs, order, hashseed, timeout, pyc)
+        except HarnessError:
+            # the tree under test may be in the middle of being edited: wait and try again
+            if attempt == 2:
+                raise
+            time.sleep(3)
+
+
+def _run_child(recipes, confs, order, hashseed, timeout, pyc):
     env = dict(os.environ)
     env["PYTHONHASHSEED"] = hashseed
     env["PYTHONPATH"] = VERIF_DIR + os.pathsep + env.get("PYTHONPATH", "")
@@ -313,6 +325,9 @@ def mechanism(ref, obs):
     return "undiagnosed"
 
 
+_SEEN_KEYS = {}  # per worker process: violation key -> number of differences with that key
+
+
 def digits(n):
     return len(str(int(n)))
 
@@ -360,6 +375,8 @@ def case(ctx, i, rng):
                 ctx.count("child_timeouts")
     finally:
         shutil.rmtree(pyc, ignore_errors=True)
+    attr_cache = {}
+    seen_keys = _SEEN_KEYS
     ref = results[0]
     if ref is None:
         ctx.count("cases_skipped_reference_timeout")
@@ -433,8 +450,7 @@ def case(ctx, i, rng):
                     limit=3,
                 )
             # ---- the oracle: every observed signature equals the reference one
-            mech = None
-            reported = set()
+            fam_causes = {}
             for name, label in OBSERVABLES:
                 if name not in a and name not in b:
                     continue
@@ -456,28 +472,94 @@ def case(ctx, i, rng):
                     ctx.count(name + "_equal")
                     continue
                 ctx.count(name + "_different")
-                if mech is None:
-                    mech = mechanism(a, b)
-                m = mech
-                if name in ("sig_fd", "sig_fd_lowered") and not mech.startswith(("operand-order", "structure", "integral-order")):
-                    # the built form is the same tree: whatever differs was introduced by the preprocessing
-                    m = "arises-in-preprocessing"
-                # one report per (pair, family of observables, mechanism): later observables repeat the first
-                fam = ("fd" if name.startswith("sig_fd") else "sig", m)
-                if fam in reported:
+                fam = "fd" if name.startswith("sig_fd") else "sig"
+                if fam in fam_causes:
+                    # same family of observables: repeats the difference already reported for this pair
                     ctx.count("differences_repeating_an_earlier_observable")
                     continue
-                reported.add(fam)
-                ctx.violation(
-                    f"C12/{label}/{hk}/{m}",
-                    f"recipe {digs[k]} ({r['cell']}, {r['nmesh']} mesh): {name} {str(va)[:12]}.. with fresh counters, "
-                    f"{str(vb)[:12]}.. under history {h} with own counts {_brief(b['counts'])}; mechanism {m}",
-                    {
-                        "recipe": r, "conf": conf, "history": h, "counts_ref": a["counts"], "counts_here": b["counts"],
-                        "const_numbering": [a.get("const_numbering"), b.get("const_numbering")],
-                        "coef_numbering": [a.get("coef_numbering"), b.get("coef_numbering")],
-                    },
-                )
+                # ---- diagnostics: name the mechanism (never changes the verdict)
+                causes = []
+                if hk in ("counters", "combined"):
+                    if fam == "fd":
+                        # a different tree was handed to the preprocessing: same causes as for the built form
+                        causes = [m for m in fam_causes.get("sig", []) if m.startswith(("operand-order", "structure", "index-pattern"))]
+                    if not causes:
+                        causes = attribute(r, a, b, name, attr_cache.setdefault(k, {}))
+                guess = None
+                if not causes:
+                    guess = mechanism(a, b)
+                    m = guess
+                    if fam == "fd" and not guess.startswith(("operand-order", "structure", "integral-order")):
+                        m = "arises-in-preprocessing"
+                    if hk in ("counters", "combined"):
+                        m = m.split("/")[0] + "/not-reproduced-by-counts-of-one-class"
+                    causes = [m]
+                fam_causes[fam] = causes
+                for m in causes:
+                    key = f"C12/{label}/{hk}/{m}"
+                    ctx.count("differences_found")
+                    # the runner keeps at most 200 violations per worker: a mechanism that fires very often must
+                    # not crowd out another one, so each key is recorded a few times only (all are counted)
+                    seen_keys[key] = seen_keys.get(key, 0) + 1
+                    if seen_keys[key] > 4:
+                        ctx.count("differences_not_recorded_repeat_of_a_recorded_key")
+                        continue
+                    if guess is None:
+                        guess = mechanism(a, b)
+                    ctx.violation(
+                        key,
+                        f"recipe {digs[k]} ({r['cell']}, {r['nmesh']} mesh): {name} {str(va)[:12]}.. with fresh counters, "
+                        f"{str(vb)[:12]}.. under history {h} with own counts {_brief(b['counts'])}; mechanism {m} (tree comparison: {guess})",
+                        {
+                            "recipe": r, "conf": conf, "history": h, "counts_ref": a["counts"], "counts_here": b["counts"],
+                            "const_numbering": [a.get("const_numbering"), b.get("const_numbering")],
+                            "coef_numbering": [a.get("coef_numbering"), b.get("coef_numbering")],
+                        },
+                    )
+
+
+def what_differs(x, y, name):
+    """Coarse kind of difference between two observations of the same recipe."""
+    ca, cb = x.get("canon"), y.get("canon")
+    if not (isinstance(ca, list) and isinstance(cb, list)):
+        return "undiagnosed"
+    if ca == cb:
+        if x.get("thd") != y.get("thd"):
+            return "hashdata"
+        return "arises-in-preprocessing" if name.startswith("sig_fd") else "same-tree-same-terminal-data"
+    ea, eb = _erase_indices(ca), _erase_indices(cb)
+    if ea == eb:
+        return "index-pattern"
+    if _norm(ea) == _norm(eb):
+        return "operand-order"
+    return "structure"
+
+
+def attribute(r, a, b, name, cache):
+    """Which counted class alone reproduces the difference?  The recipe is rebuilt in this process with
+    the counts of ONE class forced to those seen in the deviating history, all others fresh."""
+    from ..c12_procs import observe
+
+    zero = {c: 0 for c in COUNTED}
+    if "base" not in cache:
+        cache["base"] = {}
+    if name not in cache["base"]:
+        cache["base"][name] = observe(r, {"start": zero, "noise": None}, want_canon=True, only=(name,), use_alarm=False)
+    base = cache["base"][name]
+    if base.get(name) != a.get(name):
+        return []
+    out = []
+    for cls in COUNTED:
+        cs = b["counts"].get(cls) or []
+        if not cs or cs == a["counts"].get(cls):
+            continue
+        key = (name, cls, tuple(cs))
+        if key not in cache:
+            o = observe(r, {"start": zero, "noise": None, "force": {cls: cs}}, want_canon=True, only=(name,), use_alarm=False)
+            cache[key] = None if o.get(name) == base.get(name) else what_differs(base, o, name)
+        if cache[key] is not None:
+            out.append(f"{cache[key]}/{cls}")
+    return out
 
 
 def _brief(counts):
